@@ -369,6 +369,22 @@ def _edate(model, res, opaque, E):
                 if not ok:
                     res.violation('R7', 'function:EDATE:clamp-year', m.where(node),
                                   'the day clamp looks up %s, not the year/month the result is constructed with (%s, %s)' % (src(node), ysrc, msrc), func=f.name)
+        # ... and sees the value the constructor gets: no rebinding of the year / month variable between the test and the constructor
+        ctor = ctors[-1]
+        tests = list(_leap_tests(f)) + [n for n in walk_no_defs(f) if isinstance(n, ast.Call) and
+                                        (sa.call_name(n) or '') in ('calendar.monthrange', 'calendar.isleap', 'monthrange', 'isleap')]
+        for var in set(x for x in (ysrc, msrc) if x.isidentifier()):
+            rebinds = [st for st, val in sa.assignments_to(f, var)]
+            for t in tests:
+                if var not in [x.id for x in ast.walk(t) if isinstance(x, ast.Name)]:
+                    continue
+                between = [st for st in rebinds if t.lineno < st.lineno <= ctor.lineno and not any(x is t for x in ast.walk(st))]
+                res.ob('R7', 'EDATE', '%s is not rebound between %s and the constructor' % (var, src(t)[:40]), not between,
+                       '; '.join(src(b)[:40] for b in between))
+                if between:
+                    res.violation('R7', 'function:EDATE:clamp-year', m.where(t),
+                                  'the day clamp evaluates %s before %s is updated (%s): the length of February is taken from a different '
+                                  'year/month than the one the result is constructed with' % (src(t)[:60], var, src(between[0])[:40]), func=f.name)
     # finite quotient x linear forms: month/year arithmetic
     dt_cls = ClassV(None, ast.ClassDef(name='datetime', bases=[], keywords=[], body=[], decorator_list=[]))
     opq = dict(opaque)
